@@ -112,13 +112,14 @@ Proof.
     + (* start call *)
       destruct (in_call y) eqn:Ec; try discriminate.
       destruct (valid (st0 y) || valid (st1 y)) eqn:Ev.
-      * destruct (workers_idle (st0 y) && workers_idle (st1 y)) eqn:Ei; [|discriminate].
-        apply andb_true_iff in Ei. destruct Ei as [I0 I1].
-        inversion H; subst; clear H. cbn in Hc0, Hc1. destruct Hc0, Hc1. constructor; cbn.
-        -- apply sinv_begin_start; assumption.
-        -- apply sinv_begin_start; assumption.
-        -- apply (begin_start_call (st0 y)); assumption.
-        -- apply (begin_start_call (st1 y)); assumption.
+      * destruct (workers_idle (st0 y) && workers_idle (st1 y)) eqn:Ei.
+        -- apply andb_true_iff in Ei. destruct Ei as [I0 I1].
+           inversion H; subst; clear H. cbn in Hc0, Hc1. destruct Hc0, Hc1. constructor; cbn.
+           ++ apply sinv_begin_start; assumption.
+           ++ apply sinv_begin_start; assumption.
+           ++ apply (begin_start_call (st0 y)); assumption.
+           ++ apply (begin_start_call (st1 y)); assumption.
+        -- inversion H; subst; clear H. cbn in Hc0, Hc1. constructor; cbn; auto.
       * inversion H; subst; clear H. cbn in Hc0, Hc1. destruct Hc0 as [A0 B0], Hc1 as [A1 B1]. constructor; cbn; auto.
     + (* start returns *)
       destruct (in_call y) eqn:Ec; try discriminate.
@@ -144,6 +145,14 @@ Proof.
            ++ destruct A1 as [A|[A|A]]; auto.
         -- unfold call_ok, end_stop; cbn; auto.
         -- unfold call_ok, end_stop; cbn; auto.
+    + (* start refused by the HAL (start while running) *)
+      destruct (in_call y) eqn:Ec; try discriminate.
+      cbv zeta in H. match type of H with context [if ?b then _ else _] => destruct b eqn:Eb end; [|discriminate].
+      inversion H; subst; clear H. cbn in Hc0, Hc1. destruct Hc0 as [A0 B0], Hc1 as [A1 B1]. constructor; cbn.
+      * apply sinv_fail_start; assumption.
+      * apply sinv_fail_start; assumption.
+      * apply fail_start_call. right. auto.
+      * apply fail_start_call. right. auto.
     + (* stop call *)
       destruct (in_call y) eqn:Ec; try discriminate. inversion H; subst; clear H. cbn in Hc0, Hc1. destruct Hc0, Hc1.
       constructor; cbn; [apply sinv_begin_stop | apply sinv_begin_stop | apply (begin_stop_call false InStop) | apply (begin_stop_call false InStop)]; auto.
